@@ -23,6 +23,7 @@ type HarnessCfg struct {
 	Unwind   int            `json:"unwind"`
 	Steps    int            `json:"steps"`
 	Depth    int            `json:"depth"` // call depth limit (default 200)
+	MaxG     int            `json:"max_goroutines"` // goroutines per path (default 16)
 	MaxPaths int            `json:"max_paths"`
 	Note     string         `json:"note"`
 	Bounds   string         `json:"bounds"`
@@ -213,6 +214,9 @@ func (w *Worker) runPath(fn *ssa.Function, cfg HarnessCfg, params map[string]int
 	}
 	p.params = params
 	p.sched = newScheduler(p)
+	if cfg.MaxG > 0 {
+		p.sched.maxG = cfg.MaxG
+	}
 	in := &interpreter{prog: w.env.prog, globals: map[*ssa.Global]*value{}, sizes: w.env.sizes,
 		runtimeErrorString: w.env.rtErrStr, env: w.env}
 	w.s.BeginPath()
